@@ -284,3 +284,43 @@ def all_rows(F):
         rows += fl.rows()
         rows += closure_rows(F, fn, fl)
     return rows
+
+
+def tail_rows(F):
+    """(function, child AST position, flag class) for every place a child expression is handed on for analysis together
+    with the `can be a tail call` flag: 'no' (constant false), 'yes' (constant true) or 'inherit' (anything computed)"""
+    out = []
+
+    def cls(body, x):
+        if x["k"] == "const":
+            return "yes" if x.get("v") else "no"
+        return "inherit"
+    for name in ANALYZE:
+        fn = F.fn("<%s>::%s" % (A, name))
+        fl = FnEnvFlow(F, fn)
+        body = fn.body
+        for bb, t in body.calls():
+            n = callee_name(t) or ""
+            if n != "<%s>::analyze_expr" % A:
+                continue
+            flags = [x for x in t["xs"] if (x["k"] == "const" and body.ty(x["t"])["s"] == "bool") or
+                     (x["k"] in ("copy", "move") and body.ty(x["t"])["s"] == "bool")]
+            if not flags:
+                continue
+            out.append({"fn": fn.q, "child": fl.ast_path(t["xs"][1]), "flag": cls(body, flags[-1]), "site": body.span(t["sp"])})
+        for bb, si, st in body.assigns():
+            rv = st["rv"]
+            if rv["k"] == "agg" and rv["ak"] == "adt" and rv["adt"].endswith("analyze_expr::State") and rv["v"] == "Expr" and len(rv["xs"]) >= 2:
+                out.append({"fn": fn.q, "child": fl.ast_path(rv["xs"][0]), "flag": cls(body, rv["xs"][1]), "site": body.span(st["sp"])})
+        for clo in F.closures_of(fn):
+            for bb, t in clo.body.calls():
+                n = callee_name(t) or ""
+                if n != "<%s>::analyze_expr" % A:
+                    continue
+                flags = [x for x in t["xs"] if "t" in x and clo.body.ty(x["t"])["s"] == "bool"]
+                for pbb, pt in body.calls():
+                    for x in pt["xs"]:
+                        if "t" in x and body.ty(x["t"]).get("d") == clo.q:
+                            out.append({"fn": fn.q, "child": fl.ast_path(pt["xs"][0]), "flag": cls(clo.body, flags[-1]) if flags else "?",
+                                        "site": body.span(pt["sp"])})
+    return out
